@@ -5,6 +5,7 @@ implemented as derived classes, inheriting the necessary attributes and methods
 that make up the API.
 """
 
+import copy
 import warnings
 from typing import Any, Dict, Hashable, List, Optional, Sequence, Union
 
@@ -77,8 +78,8 @@ class BaseModel(SolverMixin, ModelInterface):
             **initial_values,
         )
 
-        self.add_attribute('endogenous', self.ENDOGENOUS)
-        self.add_attribute('check', self.CHECK)
+        self.add_attribute('endogenous', copy.deepcopy(self.ENDOGENOUS))
+        self.add_attribute('check', copy.deepcopy(self.CHECK))
 
         self.add_attribute('engine', engine)
 
